@@ -21,6 +21,7 @@ static GLOBAL: seams::CountingAlloc = seams::CountingAlloc;
 macro_rules! dispatch {
     ($id:expr, $f:ident, $($arg:expr),*) => {
         match $id {
+            "SELFTEST" => runner::$f::<scen::selftest::SelfTest>($($arg),*),
             "C02" => runner::$f::<scen::c02::C02>($($arg),*),
             "C03" => runner::$f::<scen::interp2::C03>($($arg),*),
             "C04" => runner::$f::<scen::interp::C04>($($arg),*),
